@@ -43,6 +43,14 @@ theorem fromRng_requires_marker :
     mentions fromRngArgs "Random" = true ∧ mentions fromRngArgs "R" = true ∧ mentions fromRngGenerics "R" = true := by
   decide
 
+/-- **every way of seeding a ChaCha generator from another generator requires the marker**: each
+associated function of a ChaCha type that takes a generator (inherent or in a trait impl) bounds
+that generator by `SecureRng` in its own generics or where-clause, and there is exactly one -/
+theorem every_chacha_seeder_requires_marker :
+    (∀ f ∈ chachaSeeders, (mentions f.2.2.2.1 "SecureRng" || mentions f.2.2.2.2.2 "SecureRng") = true) ∧
+    chachaSeeders.map (·.2.2.1) = ["from_rng"] := by
+  decide
+
 /-- **`csprng()` promises a marked generator, `new()` and `seeded()` do not claim it** -/
 theorem lib_return_types :
     (∀ r ∈ libReturns, r.1 = "csprng" → mentions r.2 "SecureRng" = true) ∧
